@@ -1,7 +1,7 @@
 """C06 -- ar members are exact, isolated, file-like views of the archive."""
 import ast
 
-from .. import cfg, normalize
+from .. import cfg, normalize, affinterp
 from ..core import AnalysisError, Func, norm, set_parents, walk_no_nested, mangle
 from ..flow import Aff, Facts, cmp_to_constraints
 
@@ -68,8 +68,11 @@ def facts_on_path(g, path, tr):
             if v is not None:
                 facts = facts.add(t - v).add(v - t)
             elif mins and all(m is not None for m in mins):
+                nonneg = all(facts.entails(m) for m in mins)
                 for m in mins:
                     facts = facts.add(m - t)
+                if nonneg:
+                    facts = facts.add(t)       # the minimum of non-negative values
         elif n.kind == 'stmt' and isinstance(n.ast, ast.AugAssign) and isinstance(n.ast.target, (ast.Name, ast.Attribute)):
             old = Aff.var(tr.sym(norm(n.ast.target)))
             d = tr.aff(n.ast.value)
@@ -110,7 +113,8 @@ def add_test(facts, test, pol, tr):
 def nfunc(f):
     """the function with its small helpers inlined and plain aliases (fp = self.__fp) substituted"""
     node, _ = normalize.inline_helpers(f)
-    node, _ = normalize.propagate_aliases(node, only_simple=True)
+    node, _ = normalize.propagate_aliases(node, only_simple=True, also_bool=True)
+    node = normalize.ifexp_to_if(node)
     set_parents(node)
     return Func(f.module, node, f.qual, f.cls)
 
@@ -229,7 +233,7 @@ def r2_position_discipline(rep, src):
     # readlines is built on the bounded readline and stops at the first empty result
     f = src.func('%s:ArMember.readlines' % M)
     rep.saw_func(f)
-    rl = [c for c in ast.walk(f.node) if isinstance(c, ast.Call) and norm(c.func) == 'self.readline']
+    rl = [c for c in ast.walk(f.node) if isinstance(c, ast.Attribute) and norm(c) == 'self.readline']     # called, or handed to iter(f, sentinel)
     raw = [c for c in fp_calls(f.node) if c.func.attr in DATA_CALLS]
     if rl and not raw:
         rep.ok('C06.R2', f.site, 'readlines uses the member readline', 'loop over self.readline()', nontrivial=False)
@@ -515,46 +519,93 @@ def r4_padding(rep, src):
             rep.fail('C06.R6', site, what, 'accessor does not read the structure filled by the walk')
 
 
+STDLIB_INT_CONSTS = {'SEEK_SET': 0, 'SEEK_CUR': 1, 'SEEK_END': 2}     # io / os: fixed by the language reference
+
+
+def _int_consts(mod):
+    """lookup for module constants plus the whence constants when they are imported from io / os"""
+    imported = {}
+    for st in mod.tree.body:
+        if isinstance(st, ast.ImportFrom) and st.module in ('io', 'os'):
+            for a_ in st.names:
+                if a_.name in STDLIB_INT_CONSTS:
+                    imported[a_.asname or a_.name] = STDLIB_INT_CONSTS[a_.name]
+        if isinstance(st, ast.Import):
+            for a_ in st.names:
+                if a_.name in ('io', 'os'):
+                    for k, v in STDLIB_INT_CONSTS.items():
+                        imported['%s.%s' % (a_.asname or a_.name, k)] = v
+
+    def look(name):
+        if name in imported:
+            return (imported[name],)
+        v = mod.consts.get('', {}).get(name)
+        if isinstance(v, int) and not isinstance(v, bool):
+            return (v,)
+        return None
+    return look
+
+
 def r5_whence(rep, src):
+    """seek / tell interpreted on symbolic integers (affine values, linear path facts): for each whence value and both
+    positions of the cursor relative to the member start, every path that does not raise leaves cur = base + offset"""
     f = src.func(M + ':ArMember.seek')
     rep.saw_func(f)
-    g = cfg.CFG(f.node)
     p = f.params()
     off, wh = p[1], p[2]
-    expect = {0: 'self.__offset', 1: 'self.__cur', 2: 'self.__end'}
-    for w, base in expect.items():
-        # find assignments to self.__cur on paths where whence == w
-        hits = []
-        for n in g.stmts():
-            if n.kind == 'stmt' and isinstance(n.ast, ast.Assign) and norm(n.ast.targets[0]) == 'self.__cur':
-                # governing whence test
-                gov = [t for t in g.nodes if t.kind == 'test' and g.dominates(t.id, n.id) and wh in norm(t.ast) and isinstance(t.ast, ast.Compare)
-                       and isinstance(t.ast.ops[0], ast.Eq) and any(lab is True and (d == n.id or g.exists_path(d, n.id, avoid=[t.id])) for d, lab in g.succ[t.id])
-                       and not any(lab is False and (d == n.id or g.exists_path(d, n.id, avoid=[t.id])) for d, lab in g.succ[t.id])]
-                for t in gov:
-                    try:
-                        val = ast.literal_eval(t.ast.comparators[0])
-                    except ValueError:
-                        continue
-                    if val == w:
-                        hits.append(n)
+    CUR, OFF, END, D = Aff.var('cur'), Aff.var('start'), Aff.var('end'), Aff.var('d')
+    fnode, _ = normalize.inline_helpers(f, depth=2)
+    cur_attr = 'self.__cur'
+    names = {'self.__cur': CUR, 'self.__offset': OFF, 'self.__end': END}
+    base_name = {0: 'the member start', 1: 'the current position', 2: 'the member end'}
+    npaths = 0
+    for w in (0, 1, 2):
         what = 'seek whence=%d' % w
-        if len(hits) != 1:
-            rep.fail('C06.R5', f.site, what, 'no single assignment of the cursor for whence=%d' % w, where=f.where)
-            continue
-        v = hits[0].ast.value
-        good = isinstance(v, ast.BinOp) and isinstance(v.op, ast.Add) and {norm(v.left), norm(v.right)} == {base, off}
-        if good:
-            rep.ok('C06.R5', f.site, what, 'cur = %s + offset' % base)
+        bad = None
+        nok = 0
+        for case, fact in (('cursor inside the member', CUR - OFF), ('cursor before the member start', OFF - CUR - 1)):
+            eff = CUR if case.startswith('cursor inside') else OFF
+            base = {0: OFF, 1: eff, 2: END}[w]
+            it = affinterp.Interp(f.site, _int_consts(f.module))
+            env = dict(names)
+            env[off] = D
+            env[wh] = Aff.const(w)
+            outs = it.run(fnode.body, env, Facts([END - OFF, fact]))
+            npaths += len(outs)
+            for o in outs:
+                if o.kind == 'raise':
+                    continue
+                got = o.env.get(cur_attr)
+                want = base + D
+                if not isinstance(got, Aff) or not (got == want or (o.facts.entails(got - want) and o.facts.entails(want - got))):
+                    bad = bad or 'with the %s the cursor becomes %r; whence=%d must be relative to %s (%r)' % (case, got, w, base_name[w], want)
+                else:
+                    nok += 1
+        if bad:
+            rep.fail('C06.R5', f.site, what, bad, where=f.where)
+        elif not nok:
+            rep.fail('C06.R5', f.site, what, 'no path sets the cursor for whence=%d' % w, where=f.where)
         else:
-            rep.fail('C06.R5', f.site, what, 'the cursor becomes %s; whence=%d must be relative to %s' % (norm(v), w, base),
-                     where='%s:%d' % (f.module.relpath, hits[0].lineno))
+            rep.ok('C06.R5', f.site, what, 'cur = %s + offset on %d path(s)' % (base_name[w], nok))
     t = src.func(M + ':ArMember.tell')
-    rets = [r for r in ast.walk(t.node) if isinstance(r, ast.Return)]
-    if any(norm(r.value) == 'self.__cur - self.__offset' for r in rets) and all(norm(r.value) in ('self.__cur - self.__offset', '0') for r in rets):
-        rep.ok('C06.R5', t.site, 'tell', 'cur − offset')
+    rep.saw_func(t)
+    tnode, _ = normalize.inline_helpers(t, depth=2)
+    bad = None
+    nret = 0
+    for case, fact, want in (('inside', CUR - OFF, CUR - OFF), ('before the start', OFF - CUR - 1, Aff.const(0))):
+        it = affinterp.Interp(t.site, _int_consts(t.module))
+        outs = it.run(tnode.body, dict(names), Facts([END - OFF, fact]))
+        npaths += len(outs)
+        for o in outs:
+            if o.kind != 'return' or not isinstance(o.value, Aff) or not (o.value == want or (o.facts.entails(o.value - want) and o.facts.entails(want - o.value))):
+                bad = bad or 'with the cursor %s tell() gives %r instead of %r' % (case, o.value if o.kind == 'return' else o.kind, want)
+            else:
+                nret += 1
+    rep.analysed['paths'] += npaths
+    if bad is None and nret:
+        rep.ok('C06.R5', t.site, 'tell', 'cur − start (0 before the start) on %d path(s)' % nret)
     else:
-        rep.fail('C06.R5', t.site, 'tell', 'tell() does not return the position relative to the member start', where=t.where)
+        rep.fail('C06.R5', t.site, 'tell', 'tell() does not return the position relative to the member start: %s' % bad, where=t.where)
 
 
 def check(src, rep, tier):
